@@ -537,6 +537,137 @@ fn enforced(src: &mut Src, ctx: &mut Ctx) -> Result<(), Fail> {
     Ok(())
 }
 
+// ------------------------------------------------------------------ (c') enforced on the DHCPv4 client path
+//
+// On Ethernet, UDP 67 -> 68 is handed to the dhcpv4 socket before the general UDP path; the
+// checksum must be enforced there as well. The client's DISCOVER is captured, a well-formed OFFER
+// is built for it (control: it must be answered by a REQUEST), then 1-2 bits inside the UDP segment
+// are flipped: when the independent verifier finds the checksum invalid and UDP receive
+// verification is on, the client must neither answer nor change state.
+
+const DHCP_MAC: [u8; 6] = [2, 0, 0, 0, 0, 0x11];
+const DHCP_SRV_MAC: [u8; 6] = [2, 0, 0, 0, 0, 0xfe];
+const DHCP_SRV: [u8; 4] = [10, 0, 0, 254];
+
+fn dhcp_offer(xid: [u8; 4], yiaddr: [u8; 4], secs_flags: [u8; 4]) -> Vec<u8> {
+    let mut b = vec![0u8; 236];
+    b[0] = 2; // BOOTREPLY
+    b[1] = 1;
+    b[2] = 6;
+    b[4..8].copy_from_slice(&xid);
+    b[8..12].copy_from_slice(&secs_flags);
+    b[16..20].copy_from_slice(&yiaddr);
+    b[20..24].copy_from_slice(&DHCP_SRV);
+    b[28..34].copy_from_slice(&DHCP_MAC);
+    b.extend_from_slice(&[0x63, 0x82, 0x53, 0x63]);
+    b.extend_from_slice(&[53, 1, 2]); // OFFER
+    b.extend_from_slice(&[54, 4]);
+    b.extend_from_slice(&DHCP_SRV);
+    b.extend_from_slice(&[51, 4, 0, 0, 0x0e, 0x10]);
+    b.extend_from_slice(&[1, 4, 255, 255, 255, 0]);
+    b.extend_from_slice(&[3, 4]);
+    b.extend_from_slice(&DHCP_SRV);
+    b.push(255);
+    b
+}
+
+fn enforced_dhcp(src: &mut Src, ctx: &mut Ctx) -> Result<(), Fail> {
+    use smoltcp::socket::dhcpv4;
+    let caps_bits = if src.chance(1, 2) { 0 } else { src.draw(1023) };
+    let caps = caps_from(caps_bits);
+    let udp_rx = caps.udp.rx();
+    let ipv4_rx = caps.ipv4.rx();
+    let seed = src.u64();
+    let mut node = Node::new(Hw::Eth(DHCP_MAC), 1500, seed, false, us(0));
+    node.dev.checksum = caps;
+    let mut dev = std::mem::replace(&mut node.dev, vkit::sim::SimDevice::new(smoltcp::phy::Medium::Ethernet, 1500));
+    let mut cfg = smoltcp::iface::Config::new(smoltcp::wire::HardwareAddress::Ethernet(smoltcp::wire::EthernetAddress(DHCP_MAC)));
+    cfg.random_seed = seed;
+    node.iface = smoltcp::iface::Interface::new(cfg, &mut dev, us(0));
+    node.dev = dev;
+    let h = node.sockets.add(dhcpv4::Socket::new());
+    let mut now: i64 = 0;
+    let out = node.poll(us(now), None);
+    // the DISCOVER: Ethernet / IPv4 / UDP 68 -> 67; fields read without verification (tx checksums may be off)
+    let mut xid = None;
+    for f in &out {
+        if f.len() >= 14 + 20 + 8 + 240 && f[12..14] == [0x08, 0x00] && f[23] == PROTO_UDP && f[34..38] == [0, 68, 0, 67] {
+            let bootp = &f[42..];
+            xid = Some([bootp[4], bootp[5], bootp[6], bootp[7]]);
+        }
+    }
+    let Some(xid) = xid else {
+        ctx.label("dhcp:no-discover-seen");
+        return Ok(());
+    };
+    let yiaddr = [10, 0, 0, 50 + src.draw(100) as u8];
+    let body = dhcp_offer(xid, yiaddr, [0, 0, if src.bool() { 0x80 } else { 0 }, 0]);
+    let (s, d) = (Ip::V4(DHCP_SRV), Ip::V4([255, 255, 255, 255]));
+    let l4 = Udp::new(67, 68, body).encode(&s, &d);
+    let mut pkt = Ip4::new(DHCP_SRV, [255, 255, 255, 255], PROTO_UDP, l4).encode();
+    let control = src.chance(1, 6);
+    let mut flipped = vec![];
+    if !control {
+        for _ in 0..src.usize(1, 2) {
+            // anywhere in the UDP segment (header incl. the checksum field, BOOTP fields, options);
+            // biased to the fields a client acts upon
+            let pos = match src.weighted(&[3, 2, 2, 1]) {
+                0 => src.usize(20, pkt.len() - 1),
+                1 => 20 + 8 + src.usize(16, 19), // yiaddr
+                2 => 20 + src.usize(6, 7),       // the checksum itself
+                _ => 20 + 8 + src.usize(8, 11),  // secs / flags
+            };
+            let bit = src.draw(7) as u8;
+            pkt[pos] ^= 1 << bit;
+            flipped.push((pos, bit));
+        }
+    }
+    let verdict = independently_valid(&pkt);
+    ctx.note(|| format!("DHCP OFFER for xid {:02x?} yiaddr {:?}: flips {:?}, caps_bits {:#x}, independent verdict {:?}", xid, yiaddr, flipped, caps_bits, verdict));
+    let frame = Eth { dst: MAC_BROADCAST, src: DHCP_SRV_MAC, ethertype: ETH_IPV4, payload: pkt.clone() }.encode();
+    // a new dhcpv4 socket reports an initial Deconfigured event: take it before the experiment
+    let _ = node.sockets.get_mut::<dhcpv4::Socket>(h).poll();
+    now += 1000;
+    node.inject(frame);
+    let out = node.poll(us(now), None);
+    let event = node.sockets.get_mut::<dhcpv4::Socket>(h).poll().is_some();
+    let request = out.iter().any(|f| f.len() >= 14 + 20 + 8 + 240 && f[12..14] == [0x08, 0x00] && f[23] == PROTO_UDP && f[34..38] == [0, 68, 0, 67]);
+    ctx.digest.bytes(&pkt);
+    match verdict {
+        Ok(()) => {
+            if control {
+                ctx.label(if request { "dhcp:control-offer-answered" } else { "dhcp:control-offer-NOT-answered" });
+                vensure!(request, "harness:dhcp-control-not-answered", "a well-formed OFFER for the client's own transaction was not answered with a REQUEST: the DHCP part of this check would be vacuous");
+            } else {
+                ctx.label("dhcp:still-valid");
+            }
+        }
+        Err(why) => {
+            if !why.contains("checksum") {
+                ctx.label("dhcp:structurally-invalid");
+                return Ok(());
+            }
+            let responsible = if why.starts_with("ipv4") { ipv4_rx } else { udp_rx };
+            if !responsible {
+                ctx.label("dhcp:rx-verification-off");
+                return Ok(());
+            }
+            ctx.nontrivial = true;
+            ctx.label(&format!("dhcp:judged:{}", why.split(':').next().unwrap_or("?")));
+            if request || !out.is_empty() {
+                ctx.report(Fail::new(
+                    "enforced:invalid-dhcp-offer-answered",
+                    format!("a DHCP OFFER whose checksum does not verify ({}) was answered with {} frame(s) (REQUEST: {}); flips {:?}; packet {:02x?}", why, out.len(), request, flipped, &pkt[..pkt.len().min(64)]),
+                ))?;
+            }
+            if event {
+                ctx.report(Fail::new("enforced:invalid-dhcp-offer-changed-socket", format!("a DHCP OFFER whose checksum does not verify ({}) made the dhcpv4 socket report an event; flips {:?}", why, flipped)))?;
+            }
+        }
+    }
+    Ok(())
+}
+
 pub fn prop() -> Prop {
     #[allow(unused_mut)]
     let mut parts = vec![
@@ -546,12 +677,13 @@ pub fn prop() -> Prop {
     ];
     #[cfg(feature = "c10")]
     parts.push(Part { name: "emitted", case: emitted, quick: 20_000, thorough: 1_000_000 });
+    parts.push(Part { name: "enforced_dhcp", case: enforced_dhcp, quick: 60_000, thorough: 2_000_000 });
     Prop {
         id: "C08",
         parts,
         phases: vec![routine_grid],
         smoltcp_panic_is_violation: true,
-        rule: "(a) wire::checksum::data against an independent RFC 1071 sum for EVERY length 0..=2048 (quick) / 0..=65535 (thorough) at every start alignment 0..7 of an 8-aligned allocation with pattern / all-zero / all-0xff contents and single 0x01/0x80/0xff octets at all (short) or sampled (long) positions, plus random buffers, combine() and pseudo_header_v4/v6 against references; non-trivial = length >= 3 with odd length or non-zero alignment. (b) every frame emitted in the simulation scenarios of the other checks is verified by the independent decoder (checksum verdicts only). (c) a node with bound UDP (v4/v6), listening and established TCP and ICMP sockets under drawn ChecksumCapabilities receives valid packets with 1-2 flipped bits inside a checksummed region, or UDP with checksum 0; when the independent verifier finds a checksum invalid and the responsible rx capability is on, the packet must change no socket state/queue and elicit no frame (UDP/IPv4 with checksum 0 is not claimed; UDP/IPv6 with 0 must be dropped); non-trivial = at least one such packet judged; distinct by digest",
+        rule: "(a) wire::checksum::data against an independent RFC 1071 sum for EVERY length 0..=2048 (quick) / 0..=65535 (thorough) at every start alignment 0..7 of an 8-aligned allocation with pattern / all-zero / all-0xff contents and single 0x01/0x80/0xff octets at all (short) or sampled (long) positions, plus random buffers, combine() and pseudo_header_v4/v6 against references; non-trivial = length >= 3 with odd length or non-zero alignment. (b) every frame emitted in the simulation scenarios of the other checks is verified by the independent decoder (checksum verdicts only). (c) a node with bound UDP (v4/v6), listening and established TCP and ICMP sockets under drawn ChecksumCapabilities receives valid packets with 1-2 flipped bits inside a checksummed region, or UDP with checksum 0; when the independent verifier finds a checksum invalid and the responsible rx capability is on, the packet must change no socket state/queue and elicit no frame (UDP/IPv4 with checksum 0 is not claimed; UDP/IPv6 with 0 must be dropped); the same on an Ethernet node with a DHCPv4 client, whose own path takes UDP 67->68 before the general one: a well-formed OFFER for the captured transaction is answered (control), with 1-2 bits flipped in its UDP segment it must be neither answered nor reported; non-trivial = at least one such packet judged; distinct by digest",
         assumptions: vec![
             "independent RFC 1071 implementation (64-bit accumulate, end-around fold) and pseudo-headers in vkit::indep",
             "double flips that cancel in the one's-complement sum are recognised by the independent verifier and not claimed",
